@@ -158,13 +158,15 @@ func runC18(r *vk.Run) {
 		`{job="j"} | json o, o2="o", o3="o"`, `{job="j"} | json a="x.y", b="x.y", c="x"`, `{job="j"} | json | drop msg`, `{job="j"} | json | keep a, x, o`,
 		`{job="j"} | logfmt | drop msg`, `{job="j"} | json | label_format p="{{.a}}", q="{{.b}}", r="{{.o}}"`, `{job="j"} | json | label_format z=a, y=b`,
 		`{job="j"} | regexp "(?P<a>\\w+) (?P<b>\\w+)" | drop msg`, `sum by (a, b) (count_over_time({job="j"} | json | drop msg [10s]))`,
+		// keys of one object that collide once sanitised (u.id, u_id, u-id): whichever wins, it wins every time
+		`sum by (u_id) (count_over_time({job="j"} | json | drop msg [10s]))`, `{job="j"} | json | line_format "{{ .u_id }}" | keep u_id`,
 		`avg(sum_over_time({job="j"} | json | drop msg | unwrap n [10s])) by (a)`, `stddev without (a) (sum_over_time({job="j"} | json | drop msg | unwrap n [10s]))`,
 	}
 	r.Phase("maporder", r.N(6, 120), func(c *vk.Case) {
 		rng := c.Rng
 		var recs []Rec
 		for i := 0; i < 12; i++ {
-			line := fmt.Sprintf(`{"a":"%s","b":"%s","n":%d.%d,"o":{"k%d":1,"z":[%d,null]},"x":{"y":{"deep":%d}}}`, vk.Pick(rng, []string{"p", "q", "r"}), vk.Pick(rng, []string{"u", "v"}), rng.Intn(100), rng.Intn(10), i%3, i, i%4)
+			line := fmt.Sprintf(`{"a":"%s","b":"%s","u.id":"dot","u_id":"plain","u-id":"dash","n":%d.%d,"o":{"k%d":1,"z":[%d,null]},"x":{"y":{"deep":%d}}}`, vk.Pick(rng, []string{"p", "q", "r"}), vk.Pick(rng, []string{"u", "v"}), rng.Intn(100), rng.Intn(10), i%3, i, i%4)
 			if i%4 == 3 {
 				line = fmt.Sprintf("a=%s b=%s n=%d word other", vk.Pick(rng, []string{"p", "q"}), vk.Pick(rng, []string{"u", "v"}), rng.Intn(50))
 			}
